@@ -25,7 +25,7 @@ def run_one(mu, tier, seed):
     res = dict(name=mu['name'], what=mu['what'], props={}, suite=None)
     try:
         subprocess.run('git -C /repo archive HEAD | tar -x -C %s' % tmp, shell=True, check=True)
-        r = subprocess.run(['git', 'apply', '--whitespace=nowarn', mu['patch']], cwd=tmp, stdout=subprocess.PIPE, stderr=subprocess.STDOUT, text=True)
+        r = subprocess.run(['git', 'apply', '--whitespace=nowarn', os.path.abspath(mu['patch'])], cwd=tmp, stdout=subprocess.PIPE, stderr=subprocess.STDOUT, text=True)
         if r.returncode: res['suite'] = 'patch does not apply: ' + r.stdout[-300:]; return res
         r = subprocess.run([os.path.join(ROOT, 'tools', 'suite_on_tree.sh'), tmp], stdout=subprocess.PIPE, stderr=subprocess.STDOUT, text=True)
         res['suite'] = 'pass' if r.returncode == 0 else 'FAIL'
@@ -45,6 +45,7 @@ def run_one(mu, tier, seed):
     return res
 
 def main(argv):
+    benign = '--benign' in argv
     tier = 'quick'; only = None; props = None; seed = int(os.environ.get('VERIF_SEED', '1') or 1)
     i = 0
     while i < len(argv):
@@ -52,13 +53,20 @@ def main(argv):
         elif argv[i] == '--only': only = argv[i + 1]; i += 2
         elif argv[i] == '--props': props = argv[i + 1].split(','); i += 2
         else: i += 1
-    mus = [m for m in collect() if (not only or only in m['name'])]
+    if benign:
+        # negative controls: property-preserving changes (other rounding direction, other NaN sign where the
+        # property allows it). Every check must stay green on them.
+        allp = props or ['C%02d' % i for i in range(1, 21)]
+        mus = [dict(name='benign/' + os.path.basename(f)[:-6], patch=f, props=allp, what=open(f).readline().strip('# \n')) for f in sorted(glob.glob(os.path.join(ROOT, 'mutants', 'benign', '*.patch'))) if (not only or only in f)]
+    else:
+        mus = [m for m in collect() if (not only or only in m['name'])]
     results = []
     for mu in mus:
         if props: mu = dict(mu, props=[p for p in mu['props'] if p in props] or props)
         r = run_one(mu, tier, seed); results.append(r)
-        print('%-44s suite=%-5s %s' % (r['name'], r['suite'], '  '.join('%s:%s(%.0fs)' % (p, 'CAUGHT' if v['caught'] else 'missed[exit %d]' % v['exit'], v['wall_s']) for p, v in r['props'].items())), flush=True)
-    path = os.path.join(ROOT, 'mutants', 'RESULTS-%s.json' % tier)
+        if benign: print('%-44s suite=%-5s %s' % (r['name'], r['suite'], '  '.join('%s:%s' % (p, 'green' if v['exit'] == 0 else 'ALARM[exit %d] %s' % (v['exit'], v['first'][:120])) for p, v in r['props'].items())), flush=True)
+        else: print('%-44s suite=%-5s %s' % (r['name'], r['suite'], '  '.join('%s:%s(%.0fs)' % (p, 'CAUGHT' if v['caught'] else 'missed[exit %d]' % v['exit'], v['wall_s']) for p, v in r['props'].items())), flush=True)
+    path = os.path.join(ROOT, 'mutants', ('BENIGN-%s.json' if benign else 'RESULTS-%s.json') % tier)
     old = {}
     if os.path.exists(path):
         for r in json.load(open(path)): old[r['name']] = r
